@@ -55,6 +55,16 @@ def tampers(rng, g, hl, others, full):
     for p in (hl, hl + 2, n - 2):
         yield "space@%d" % p, g[:p] + " " * bs + g[p:]
         yield "space+len@%d" % p, fix_len(g[:p] + " " * bs + g[p:])
+    # hex pairs of the MAC / of the key data replaced by white space (bytes.fromhex skips it)
+    ml2 = 2 * t.MACLEN[g[0]]
+    for k in range(2, ml2 + 1, 2):
+        yield "mac-tail-blank%d" % k, g[:n - k] + " " * k
+        yield "mac-head-blank%d" % k, g[:n - ml2] + " " * k + g[n - ml2 + k:]
+    for ws in ("\t", "\n"):
+        yield "mac-blank-ws", g[:n - ml2] + ws * ml2
+    for k in (2, 2 * bs):
+        yield "keydata-blank%d" % k, g[:hl] + " " * k + g[hl + k:]
+        yield "keydata-tail-blank%d" % k, g[:n - ml2 - k] + " " * k + g[n - ml2:]
     # transplants from other genuine blocks under the same KBPK
     for og, ohl in others:
         ml2 = 2 * t.MACLEN[g[0]]
@@ -112,9 +122,10 @@ def run(ctx):
                             items.append((k3, g, False, g, "kbpk-other-length", key))
     budget = ctx.n(2600, 60000)
     if len(items) > budget:
-        always = ("genuine", "lower-case hex", "kbpk-other-length")
-        keep = [it for it in items if it[4] in always]
-        rest = [it for it in items if it[4] not in always]
+        always = ("genuine", "lower-case hex", "kbpk-other-length", "mac-blank-ws")
+        always_prefix = ("mac-tail-blank", "mac-head-blank", "keydata-blank", "keydata-tail-blank")
+        keep = [it for it in items if it[4] in always or it[4].startswith(always_prefix)]
+        rest = [it for it in items if not (it[4] in always or it[4].startswith(always_prefix))]
         rng.shuffle(rest)
         items = keep + rest[:budget]
     munw = t.model_unwrap([(k, s) for k, s, *_ in items])
@@ -146,6 +157,28 @@ def run(ctx):
             diffs.append({"kind": kind, "kbpk": kbpk.hex(), "string": s[:120], "impl": [str(x)[:60] for x in iu], "model": [str(x)[:60] for x in mu]})
         elif len(samples) < 6 and kind not in ("genuine",) and rng.random() < 0.01:
             samples.append({"kind": kind, "string": s[:90], "verdict": iu[0] if iu[0] == "OK" else iu[1]})
+    # ---- one reused KeyBlock: a block authentic under K1 must be rejected after kbpk is reassigned to K2 (and accepted
+    #      again after it is set back); whatever the object derived or cached before must not authenticate it
+    seqs = []
+    for v in "ABCD":
+        for ks in t.KBPK_SIZES[v]:
+            k1, k2 = rng.randbytes(ks), rng.randbytes(ks)
+            c = t.gen_case(rng, version=v, profile="few", keylen=16, mask=None)
+            g1 = tr31.wrap(k1, t.impl_header(c), c["key"])
+            g2 = tr31.wrap(k2, t.impl_header(c), c["key"])
+            seqs.append((k1, [("U", g1), ("K", k2), ("U", g1), ("U", g2), ("K", k1), ("U", g2), ("U", g1)], [True, None, False, True, None, False, True]))
+    both, _ = t.run_both([(k, ops) for k, ops, _ in seqs])
+    for (k, ops, want), (impl, model) in zip(seqs, both):
+        if impl != model:
+            diffs.append({"kind": "reused object", "ops": [core.op_token(o_)[:50] for o_ in ops], "impl": [x[:40] for x in impl[1]], "model": [x[:40] for x in model[1]]})
+        for o_, w, out in zip(ops, want, impl[1]):
+            if w is False and out.startswith("bytes:"):
+                viol.append({"what": "a reused KeyBlock returned a key for a block that is not authentic under its current KBPK",
+                             "input": {"kbpk": k.hex(), "ops": [core.op_token(x) for x in ops]}, "expected": "PsecError", "observed": out[:80]})
+            if w is True and not out.startswith("bytes:"):
+                viol.append({"what": "a reused KeyBlock rejected a block authentic under its current KBPK",
+                             "input": {"kbpk": k.hex(), "ops": [core.op_token(x) for x in ops]}, "expected": "key", "observed": out[:80]})
+    dist["reused_object_sequences"] = len(seqs)
     if not samples:
         samples.append({"kind": items[-1][4], "string": items[-1][1][:90]})
     return {"evaluations": len(items), "distinct_nontrivial": len(seen), "samples": samples, "distribution": dist,
